@@ -79,7 +79,8 @@ def _case(draw, tier):
         src = src + [[draw(st.integers(5, 8)), 1, "z", None]]
         if "n" not in uncond:
             clauses = clauses + [{"kind": "insert", "cond": None, "cols": None, "vals": [["scol", None]] * 4}]
-    spelling = draw(st.sampled_from(["plain"] if clean else ["plain", "plain", "plain", "alias", "alias-as", "subquery-source", "qualified", "lower-keywords"]))
+    # (the ON condition written source-first, or naming the source in another letter case than USING does, is still the plain shape)
+    spelling = draw(st.sampled_from(["plain", "plain", "on-reversed", "on-source-other-case"] if clean else ["plain", "plain", "plain", "alias", "alias-as", "subquery-source", "qualified", "lower-keywords", "on-reversed", "on-source-other-case"]))
     return {
         "mode": mode,
         "tgt": tgt,
@@ -227,7 +228,7 @@ def run_merge(case, ctx: Ctx) -> None:
     tgt = [list(r) for r in case["tgt"]]
     src = [list(r) for r in case["src"]]
     clauses = case["clauses"]
-    if any(len(r) != 4 for r in tgt + src) or not clauses or case["spelling"] not in ("plain", "alias", "alias-as", "subquery-source", "qualified", "lower-keywords"):
+    if any(len(r) != 4 for r in tgt + src) or not clauses or case["spelling"] not in ("plain", "alias", "alias-as", "subquery-source", "qualified", "lower-keywords", "on-reversed", "on-source-other-case"):
         raise InvalidCase()
     for c in clauses:
         if c["kind"] not in ("update", "delete", "insert") or (c["kind"] == "insert" and len(c["vals"]) != len(c["cols"] or COLS)):
@@ -254,7 +255,12 @@ def run_merge(case, ctx: Ctx) -> None:
     tname, sname = ("DB1.S1.TGT", "DB1.S1.SRC") if sp == "qualified" else ("TGT", "SRC")
     into = f"{tname} {T}" if sp == "alias" else (f"{tname} AS {T}" if sp == "alias-as" else tname)
     using = f"{sname} {S}" if sp == "alias" else (f"{sname} AS {S}" if sp == "alias-as" else ("(SELECT * FROM SRC) AS SRC" if sp == "subquery-source" else sname))
-    on = f"{T}.K = {S}.K" + (f" AND {T}.K2 = {S}.K2" if two_key else "")
+    if sp == "on-reversed":
+        on = f"{S}.K = {T}.K" + (f" AND {S}.K2 = {T}.K2" if two_key else "")
+    elif sp == "on-source-other-case":
+        on = f"{T}.K = src.K" + (f" AND {T}.K2 = Src.K2" if two_key else "")
+    else:
+        on = f"{T}.K = {S}.K" + (f" AND {T}.K2 = {S}.K2" if two_key else "")
     parts = []
     for c in clauses:
         if c["kind"] == "update":
@@ -267,6 +273,9 @@ def run_merge(case, ctx: Ctx) -> None:
     sql = f"MERGE INTO {into} USING {using} ON {on} " + " ".join(parts)
     if sp == "lower-keywords":
         sql = sql.lower().replace("'lit'", "'lit'")
+    # with the ON condition written source-first the tables are also named so that the target sorts before the source
+    q = (lambda x: x.replace("TGT", "ATGT").replace("SRC", "ZSRC")) if sp == "on-reversed" else (lambda x: x)  # noqa: E731
+    sql = q(sql)
     shapes = _shapes(case, tgt, src)
     # one primary shape per case (the first that applies) keeps one signature per root cause
     shape = next((x for x in ("table-aliases", "qualified-names", "expression-right-hand-side", "duplicate-target-keys") if x in shapes), "clean")
@@ -279,8 +288,8 @@ def run_merge(case, ctx: Ctx) -> None:
     try:
         conn = fs.connect("db1", "s1")
         cur = conn.cursor()
-        cur.execute(f"CREATE TABLE TGT (K INT, K2 INT, V VARCHAR, N INT{' NOT NULL' if case.get('not_null_n') else ''})")
-        cur.execute("CREATE TABLE SRC (K INT, K2 INT, V VARCHAR, N INT)")
+        cur.execute(q(f"CREATE TABLE TGT (K INT, K2 INT, V VARCHAR, N INT{' NOT NULL' if case.get('not_null_n') else ''})"))
+        cur.execute(q("CREATE TABLE SRC (K INT, K2 INT, V VARCHAR, N INT)"))
         cur.execute("CREATE TABLE BYSTANDER (X INT)")
         cur.execute("INSERT INTO BYSTANDER VALUES (1), (2)")
         if case.get("not_null_n"):
@@ -293,7 +302,7 @@ def run_merge(case, ctx: Ctx) -> None:
             fails_expected = any(r[3] is None for r in want_rows)
         for name, rows in (("TGT", tgt), ("SRC", src)):
             if rows:
-                cur.execute(f"INSERT INTO {name} VALUES " + ", ".join("(" + ", ".join(sql_lit(v) for v in r) + ")" for r in rows))
+                cur.execute(q(f"INSERT INTO {name} VALUES ") + ", ".join("(" + ", ".join(sql_lit(v) for v in r) + ")" for r in rows))
         kinds = [c["kind"] for c in clauses]
         ctx.cls(f"shape:{shape}", "clauses:" + "+".join(kinds), f"spelling:{sp}", "two-key" if two_key else "one-key")
         matched_n = counts["updated"] + counts["deleted"]
@@ -309,8 +318,8 @@ def run_merge(case, ctx: Ctx) -> None:
             if o.ok:
                 ctx.fail("C12|constraint-violation-not-raised", where)
             after = snapshot(fs)
-            if after["rows"].get("DB1.S1.TGT") != before["rows"].get("DB1.S1.TGT"):
-                ctx.fail("C12|not-atomic|partial-effects-after-failure", f"{where}: TGT {before['rows'].get('DB1.S1.TGT')} -> {after['rows'].get('DB1.S1.TGT')}; error {o}")
+            if after["rows"].get(q("DB1.S1.TGT")) != before["rows"].get(q("DB1.S1.TGT")):
+                ctx.fail("C12|not-atomic|partial-effects-after-failure", f"{where}: TGT {before['rows'].get(q('DB1.S1.TGT'))} -> {after['rows'].get(q('DB1.S1.TGT'))}; error {o}")
             return
         if not o.ok:
             ctx.fail(sig(f"raises|{o.etype}"), f"{where}: {o}")
@@ -339,10 +348,10 @@ def run_merge(case, ctx: Ctx) -> None:
             elif any(not isinstance(g, int) for g in got):
                 ctx.fail("C12|counts-not-int", f"{where}: status {got!r}")
         chk = conn.cursor()
-        rt = run(chk, "SELECT K, K2, V, N FROM TGT")
+        rt = run(chk, q("SELECT K, K2, V, N FROM TGT"))
         if not rt.ok or ms(rt.rows) != ms(want_rows):
             ctx.fail(sig("wrong-target"), f"{where}: TGT = {ms(rt.rows) if rt.ok else rt}, documented {ms(want_rows)}")
-        rs = run(chk, "SELECT K, K2, V, N FROM SRC")
+        rs = run(chk, q("SELECT K, K2, V, N FROM SRC"))
         if not rs.ok or ms(rs.rows) != ms(src):
             ctx.fail(sig("source-changed"), f"{where}: SRC = {rs}")
         rb = run(chk, "SELECT X FROM BYSTANDER ORDER BY X")
@@ -354,10 +363,10 @@ def run_merge(case, ctx: Ctx) -> None:
             if oh.ok:
                 ctx.fail("C12|helper-object-visible|name-lookup", f"after {sql}: SELECT * FROM MERGE_CANDIDATES returned {len(oh.rows)} rows")
         elif after == "show-tables":
-            for q in ("SHOW TABLES IN ACCOUNT", "SELECT table_catalog, table_schema, table_name FROM information_schema.tables", "SHOW OBJECTS IN DATABASE DB1"):
-                oh = run(conn.cursor(), q)
+            for lq in ("SHOW TABLES IN ACCOUNT", "SELECT table_catalog, table_schema, table_name FROM information_schema.tables", "SHOW OBJECTS IN DATABASE DB1"):
+                oh = run(conn.cursor(), lq)
                 if oh.ok and any("MERGE_CANDIDATES" in str(r).upper() for r in oh.rows):
-                    ctx.fail("C12|helper-object-visible|listing", f"{q}: {[r for r in oh.rows if 'MERGE_CANDIDATES' in str(r).upper()]}")
+                    ctx.fail("C12|helper-object-visible|listing", f"{lq}: {[r for r in oh.rows if 'MERGE_CANDIDATES' in str(r).upper()]}")
             s_after = snapshot(fs, rows=False)
             extra = set(map(tuple, s_after["tables"])) - set(map(tuple, before["tables"]))
             if extra:
@@ -369,7 +378,7 @@ def run_merge(case, ctx: Ctx) -> None:
                 if not o2.ok:
                     ctx.fail(sig(f"second-merge-raises|{o2.etype}"), f"{o2}")
                 else:
-                    rt2 = run(chk, "SELECT K, K2, V, N FROM TGT")
+                    rt2 = run(chk, q("SELECT K, K2, V, N FROM TGT"))
                     if rt2.ok and ms(rt2.rows) != ms(ref2[0]):
                         ctx.fail(sig("wrong-target|second-merge"), f"{where} twice: TGT = {ms(rt2.rows)}, documented {ms(ref2[0])}")
     finally:
